@@ -334,6 +334,12 @@ def main(argv=None):
         from checks import filestep
         fs = filestep.run(report, args.tier, args.seed, "C14")
         report.coverage["filestep"] = fs
+        # Layer G: the sets the watcher keeps of one phase (spec/WatchSets.tla) model checked and replayed
+        from checks import watchsets
+        ws = watchsets.run(report, args.tier, args.seed, "C14")
+        report.coverage["watchsets"] = ws
+        report.coverage["states"] = report.coverage.get("states", 0) + ws.get("states", 0)
+        report.coverage["traces_validated_against_impl"] = report.coverage.get("traces_validated_against_impl", 0) + ws.get("sequences", 0)
         report.coverage["states"] = report.coverage.get("states", 0) + fs.get("states", 0)
         report.coverage["traces_validated_against_impl"] = report.coverage.get("traces_validated_against_impl", 0) + fs.get("sequences", 0)
     return report.finish()
